@@ -172,6 +172,12 @@ class Exec:
                 v = st.read(fname, o.z)
                 if isinstance(v, ZV) and v.kind == 'ref' and v.cls is None: v.cls = FIELDS[fname].cls
                 return [(st, v)]
+            if o.cls:
+                from . import calls as _calls
+                real = _calls.C_class(o.cls)
+                if real is not None and not hasattr(real, attr) and '__getattr__' in vars(real):
+                    k = _calls.resolve_method(real, '__getattr__')
+                    return _calls.apply_contract(self, st, k, o, [PConst(attr)], {}, [], [], node or ast.Constant(value=None, lineno=0))
             return [(st, PBound(o, attr))]
         if isinstance(o, (PDict, PSet, PMap, PTuple, PSeq, PSuper)) or (isinstance(o, ZV) and o.kind == 'str'):
             return [(st, PBound(o, attr))]
@@ -335,6 +341,12 @@ class Exec:
 
     def getitem(self, st, c, i, node=None):
         lab = f'L{getattr(node, "lineno", "?")}.key'
+        if isinstance(c, ZV) and c.kind == 'ref' and c.cls:
+            from . import calls as _calls
+            real = _calls.C_class(c.cls)
+            k = _calls.resolve_method(real, '__getitem__') if real is not None else None
+            if k is None: raise Unsupported(f'subscript of a {c.cls} object: no __getitem__ contract')
+            return _calls.apply_contract(self, st, k, c, [i], {}, [], [], node or ast.Constant(value=None, lineno=0))
         if isinstance(c, PDict) or (isinstance(c, ZV) and c.kind == 'val' and not self._is_int_index(i)):
             arr = self.as_dict(st, c)
             cell = arr[self.as_str(st, i)]
